@@ -129,40 +129,58 @@ def file_level(chk):
                             extra=list(extra))
         return p
     cases = []
-    for dt, ev in (('I', [[1, 2], [3, 4]]), ('F', [[1.5, 2.0], [3.0, 4.25]]), ('F', [[float('nan'), 2.0], [3.0, 4.0]]),
-                   ('D', [[1.5, float('nan')], [float('inf'), 4.0]])):
-        tag = dt + ('nan' if any(v != v for r in ev for v in r) else '')
-        a = mk('a_%s.fcs' % tag, ev, dt)
+    # (datatype, bits, range, events, the same events with ONE event changed by the smallest representable amount)
+    f32 = np.float32
+    tiny = [('I', 16, 1024, [[1, 2], [3, 4]], [[1, 2], [3, 5]]),
+            ('I', 32, 2 ** 30, [[654321, 2], [3, 900000001]], [[654322, 2], [3, 900000001]]),
+            ('F', 32, 1024, [[812.125, 2.0], [3.0, 4.25]], [[float(np.nextafter(f32(812.125), f32(1e9))), 2.0], [3.0, 4.25]]),
+            ('F', 32, 1024, [[float('nan'), 2.0], [3.0, 1e-30]], [[float('nan'), 2.0], [3.0, 0.0]]),
+            ('D', 64, 1024, [[1.5, float('nan')], [float('inf'), 123456789.125]],
+             [[1.5, float('nan')], [float('inf'), float(np.nextafter(123456789.125, 1e12))]])]
+    for dt, bits, rng, ev, ev_min in tiny:
+        tag = '%s%d%s' % (dt, bits, 'nan' if any(v != v for r in ev for v in r) else '')
+
+        def mkb(fn, events, label='L'):
+            p = os.path.join(d, fn)
+            fcsgen.write_sample(p, events, names, [rng, rng], bits=bits, datatype=dt, pne=['0,0', '0,0'], pns=[label, None])
+            return p
+        a = mkb('a_%s.fcs' % tag, ev)
         ev2 = [list(r) for r in ev]
-        ev2[1][1] = 9 if dt == 'I' else 9.5
-        b = mk('b_%s.fcs' % tag, ev2, dt)
-        c = mk('c_%s.fcs' % tag, ev, dt, label='M')
+        ev2[1][0] = 9 if dt == 'I' else 9.5
+        b = mkb('b_%s.fcs' % tag, ev2)
+        bm = mkb('bm_%s.fcs' % tag, ev_min)
+        c = mkb('c_%s.fcs' % tag, ev, label='M')
         with warnings.catch_warnings():
             warnings.simplefilter('ignore')
             fa1, fa2 = FlowCal.io.FCSFile(a), FlowCal.io.FCSFile(a)
-            fb = FlowCal.io.FCSFile(b)
             da1, da2 = FlowCal.io.FCSData(a), FlowCal.io.FCSData(a)
-        # b and c live at other paths; compare through a copy at the same path to isolate content
+        # b, bm and c live at other paths; compare through a copy at the same path to isolate content
         import shutil
         same_path = os.path.join(d, 'x_%s.fcs' % tag)
-        shutil.copy(a, same_path)
-        f_same1 = FlowCal.io.FCSFile(same_path)
-        shutil.copy(b, same_path)
-        f_event = FlowCal.io.FCSFile(same_path)
-        shutil.copy(c, same_path)
-        f_kw = FlowCal.io.FCSFile(same_path)
-        shutil.copy(a, same_path)
-        f_same2 = FlowCal.io.FCSFile(same_path)
+
+        def at_same_path(src):
+            shutil.copy(src, same_path)
+            return FlowCal.io.FCSFile(same_path)
+        f_same1 = at_same_path(a)
+        f_event = at_same_path(b)
+        f_min = at_same_path(bm)
+        f_kw = at_same_path(c)
+        f_same2 = at_same_path(a)
+        differs = not np.array_equal(np.asarray(f_same1.data), np.asarray(f_min.data), equal_nan=True)
         obs = {'two_loads_equal': bool(fa1 == fa2) and not bool(fa1 != fa2) and bool(f_same1 == f_same2),
                'hash_equal': hash(fa1) == hash(fa2),
                'event_differs_unequal': bool(f_same1 != f_event) and not bool(f_same1 == f_event),
+               'smallest_event_difference_unequal': (not differs) or (bool(f_same1 != f_min) and not bool(f_same1 == f_min)),
                'keyword_differs_unequal': bool(f_same1 != f_kw) and not bool(f_same1 == f_kw),
                'fcsdata_loads_equal': hr.fingerprint(da1) == hr.fingerprint(da2)}
+        if not differs:
+            raise tlc.MachineryError('C20 file level: the minimally changed file %s reads back the same events' % tag)
         chk.case(('file', tag), nontrivial=True, sample={'file_level': tag, 'observed': obs})
         chk.traces += 1
         for k, v in obs.items():
             if not v:
-                chk.violation('C20/file/%s/%s' % (tag, k), {'datatype': dt, 'events': repr(ev)}, {k: True}, obs)
+                chk.violation('C20/file/%s/%s' % (tag, k), {'datatype': dt, 'bits': bits, 'events': repr(ev), 'changed': repr(ev_min)},
+                              {k: True}, obs)
 
 
 def main(chk, replay=None):
